@@ -73,61 +73,111 @@ func (c *Ctx) ruleR10ab(ra, rb string) {
 			modeP = p
 		}
 	}
-	// the marker: loop-carried phi of position type initialised with 0
-	var marker *ssa.Phi
-	var curPhi *ssa.Phi
-	for _, b := range fn.Blocks {
-		for _, in := range b.Instrs {
-			ph, ok := in.(*ssa.Phi)
-			if !ok {
-				continue
-			}
-			back := false
-			for i := range ph.Edges {
-				if b.Dominates(b.Preds[i]) {
-					back = true
-				}
-			}
-			if !back {
-				continue
-			}
-			zeroInit := false
-			for _, e := range ph.Edges {
-				if k, isC := ssax.ConstInt(e); isC && k == 0 {
-					zeroInit = true
-				}
-			}
-			if bt, ok := ph.Type().Underlying().(*types.Basic); ok && bt.Info()&types.IsInteger != 0 {
-				if zeroInit {
-					marker = ph // initialised with the 'unset' value 0
-				} else {
-					curPhi = ph
-				}
+	// the marker: loop-carried phi of position type initialised with 0; the cursor: the other loop-carried integer.
+	// The loop may live in SkipWhitespaces itself or in a helper returning (cursor, marker).
+	marker, curPhi := wsLoopPhis(fn)
+	var curV, markV ssa.Value
+	if marker != nil && curPhi != nil {
+		curV, markV = curPhi, marker
+	}
+	lf := c.linFn(fn)
+	var startForm lin.Expr
+	if posP != nil {
+		startForm = lin.Atom(posP.Name()).Sub(lin.Atom(c.offsetAtom(fn.Params[0].Name())))
+	}
+	isStartCursor := func(v ssa.Value, _ *ssa.Parameter) bool {
+		d := lf.Norm(v).Sub(startForm)
+		return d.IsConst() && d.K == 0
+	}
+	if curV != nil && posP != nil {
+		for i, e := range curPhi.Edges {
+			if !curPhi.Block().Dominates(curPhi.Block().Preds[i]) && !isStartCursor(e, posP) {
+				c.R.Violation(ra, name+" scan start", name, c.P.InstrPos(curPhi), "the skipping loop does not start at the cursor of the position it was given (pos - File.offset): bytes are skipped unexamined or examined twice")
 			}
 		}
 	}
-	if marker == nil || curPhi == nil || posP == nil || modeP == nil {
+	if curV == nil && posP != nil {
+		for _, call := range ssax.Calls(fn) {
+			cl, ok := call.(*ssa.Call)
+			h := call.Common().StaticCallee()
+			if !ok || h == nil || call.Common().IsInvoke() || !c.P.InLib(h) || len(h.Blocks) == 0 {
+				continue
+			}
+			m2, c2 := wsLoopPhis(h)
+			if m2 == nil || c2 == nil {
+				continue
+			}
+			idxC, idxM, okRet := -1, -1, true
+			for _, r := range ssax.Returns(h) {
+				for i, res := range r.Results {
+					switch ssax.Strip(res) {
+					case ssa.Value(c2):
+						if idxC >= 0 && idxC != i {
+							okRet = false
+						}
+						idxC = i
+					case ssa.Value(m2):
+						if idxM >= 0 && idxM != i {
+							okRet = false
+						}
+						idxM = i
+					}
+				}
+			}
+			if idxC < 0 || idxM < 0 {
+				continue
+			}
+			for _, r := range ssax.Returns(h) {
+				if ssax.Strip(r.Results[idxC]) != ssa.Value(c2) || ssax.Strip(r.Results[idxM]) != ssa.Value(m2) {
+					okRet = false
+				}
+			}
+			// the helper starts scanning at the cursor of the position handed to SkipWhitespaces
+			okInit := false
+			for i, e := range c2.Edges {
+				if c2.Block().Dominates(c2.Block().Preds[i]) {
+					continue
+				}
+				for k, hp := range h.Params {
+					if e == ssa.Value(hp) && k < len(cl.Call.Args) && isStartCursor(cl.Call.Args[k], posP) {
+						okInit = true
+					}
+				}
+			}
+			ec, em := ssax.Extracts(cl, idxC), ssax.Extracts(cl, idxM)
+			if !okRet || !okInit || len(ec) == 0 || len(em) == 0 {
+				c.R.Undecided(ra, name+" scanning helper", name, c.P.InstrPos(cl), "the scanning loop lives in "+c.name(h)+" but it does not return its cursor and marker on every path, or is not started at the cursor of the given position")
+				return
+			}
+			marker, curPhi = m2, c2
+			curV, markV = ec[0], em[0]
+			name = c.name(h)
+		}
+	}
+	if curV == nil || markV == nil || posP == nil || modeP == nil {
 		c.R.Undecided(ra, name+" shape", name, c.P.Pos(fn.Pos()), "loop cursor / first-line-break marker / parameters not recognised (a table-driven or flag-based rewrite is outside the recognised shape)")
 		return
 	}
+	name = c.name(fn)
+	loopName := c.name(curPhi.Parent())
 	isMarker := func(v ssa.Value) bool {
 		for _, l := range ssax.Leaves(v) {
-			if l == ssa.Value(marker) {
+			if l == markV {
 				return true
 			}
 		}
-		return v == ssa.Value(marker)
+		return v == markV
 	}
 	posKind := func(v ssa.Value) string {
 		v = ssax.Strip(v)
 		if v == ssa.Value(posP) {
 			return "start"
 		}
-		if v == ssa.Value(marker) {
+		if v == markV {
 			return "first-line-break"
 		}
 		if cl, ok := v.(*ssa.Call); ok {
-			if sc := cl.Call.StaticCallee(); sc != nil && sc.Name() == "Pos" && len(cl.Call.Args) == 2 && cl.Call.Args[1] == ssa.Value(curPhi) {
+			if sc := cl.Call.StaticCallee(); sc != nil && sc.Name() == "Pos" && len(cl.Call.Args) == 2 && cl.Call.Args[1] == curV {
 				return "end"
 			}
 		}
@@ -140,13 +190,6 @@ func (c *Ctx) ruleR10ab(ra, rb string) {
 	}
 	covered := map[string]bool{}
 	errVars := map[string]string{}
-	// "the cursor at which the run started" as a linear form: pos - File.offset (whatever helper computes it)
-	lf := c.linFn(fn)
-	startForm := lin.Atom(posP.Name()).Sub(lin.Atom(c.offsetAtom(fn.Params[0].Name())))
-	isStartCursor := func(v ssa.Value, _ *ssa.Parameter) bool {
-		d := lf.Norm(v).Sub(startForm)
-		return d.IsConst() && d.K == 0
-	}
 	for _, r := range ssax.Returns(fn) {
 		if len(r.Results) != 2 {
 			continue
@@ -196,9 +239,9 @@ func (c *Ctx) ruleR10ab(ra, rb string) {
 				cond = "no-line-break"
 			case isMarker(x) && isZy && zy == 0 && (op == token.GTR || op == token.NEQ):
 				cond = "line-break-seen"
-			case x == ssa.Value(curPhi) && op == token.GTR && isStartCursor(y, posP):
+			case x == curV && op == token.GTR && isStartCursor(y, posP):
 				cond = "run-non-empty"
-			case isStartCursor(x, posP) && op == token.LSS && y == ssa.Value(curPhi):
+			case isStartCursor(x, posP) && op == token.LSS && y == curV:
 				cond = "run-non-empty"
 			}
 		}
@@ -268,7 +311,7 @@ func (c *Ctx) ruleR10ab(ra, rb string) {
 	if sameSet(all, wantAll) {
 		c.R.Hold(rb, name+" skipped alphabet", "{0x20, 0x09, 0x0A, 0x0C}")
 	} else {
-		c.R.Violation(rb, name+" skipped alphabet", name, c.P.Pos(fn.Pos()), fmt.Sprintf("the loop skips bytes %v; the statement says exactly space, tab, line feed, form feed", setStr(all)))
+		c.R.Violation(rb, name+" skipped alphabet", loopName, c.P.Pos(curPhi.Parent().Pos()), fmt.Sprintf("the loop skips bytes %v; the statement says exactly space, tab, line feed, form feed", setStr(all)))
 	}
 	if sameSet(nl, wantNl) {
 		c.R.Hold(rb, name+" line-break alphabet", "{0x0A, 0x0C}")
@@ -294,7 +337,7 @@ func (c *Ctx) ruleR10ab(ra, rb string) {
 				if !cd.Truth {
 					op = ssax.Negate(op)
 				}
-				if zy, isZ := ssax.ConstInt(y); isZ && zy == 0 && isMarker(x) && op == token.EQL {
+				if zy, isZ := ssax.ConstInt(y); isZ && zy == 0 && (isMarker(x) || x == ssa.Value(marker)) && op == token.EQL {
 					okSet = true
 				}
 			}
@@ -765,4 +808,40 @@ func (c *Ctx) ruleR10e(rule string) {
 	if n == 0 {
 		c.R.Fail("coverage-lost", rule, "parsley.Parse override", "-", "-", "the furthest-error override of parsley.Parse was not recognised in Parse or its helpers")
 	}
+}
+
+// wsLoopPhis: the loop-carried integer phis of a whitespace-scanning loop: the marker (initialised with 0, the
+// 'unset' value) and the cursor.
+func wsLoopPhis(fn *ssa.Function) (marker, cur *ssa.Phi) {
+	for _, b := range fn.Blocks {
+		for _, in := range b.Instrs {
+			ph, ok := in.(*ssa.Phi)
+			if !ok {
+				continue
+			}
+			back := false
+			for i := range ph.Edges {
+				if b.Dominates(b.Preds[i]) {
+					back = true
+				}
+			}
+			if !back {
+				continue
+			}
+			zeroInit := false
+			for _, e := range ph.Edges {
+				if k, isC := ssax.ConstInt(e); isC && k == 0 {
+					zeroInit = true
+				}
+			}
+			if bt, ok := ph.Type().Underlying().(*types.Basic); ok && bt.Info()&types.IsInteger != 0 {
+				if zeroInit {
+					marker = ph // initialised with the 'unset' value 0
+				} else {
+					cur = ph
+				}
+			}
+		}
+	}
+	return marker, cur
 }
